@@ -100,6 +100,8 @@ def make_storage(kind, path):
         return LocalStorage(path)
     if kind == 'rec':
         return RecLocalStorage(path)
+    if kind == 'faulty':
+        return FaultyStorage(path)
     if kind == 'pathstr':
         return str(path)
     if kind == 'fsspec-local':
@@ -109,3 +111,142 @@ def make_storage(kind, path):
     if kind == 'null':
         return None
     raise ValueError(kind)
+
+
+# ---------------------------------------------------------------- fault injection (C12/C13/C14)
+def _inject_cfg(name):
+    from .body import load_plan, plan_entry
+    try:
+        return plan_entry(load_plan(), name).get('inject')
+    except Exception:
+        return None
+
+
+def _armed_save(self, base_save, storage, task, task_result):
+    from . import inject
+    cfg = _inject_cfg(task.name)
+    if not cfg:
+        return base_save(storage, task, task_result)
+
+    def on_fire(site):
+        emit('inj-fire', name=task.name, site=site, action=cfg.get('action'))
+    inj = inject.Injector(k=cfg.get('k'), action=cfg.get('action', 'raise'), on_fire=on_fire)
+    emit('save-begin', name=task.name)
+    inj.start()
+    try:
+        return base_save(storage, task, task_result)
+    finally:
+        n = inj.stop()
+        emit('inj', name=task.name, n=n, fired=inj.fired,
+             sites=(sorted(f'{a}:{b}' for a, b in inj.sites) if cfg.get('k') is None else None))
+
+
+from labtech.cache import PickleCache  # noqa: E402
+
+
+class ArmedPickleCache(PickleCache):
+    """PickleCache whose save() runs under a line failpoint when the plan asks
+    for one (reads $VLAB_CTL/plan.json; works in serial, fork and spawn)."""
+
+    def save(self, storage, task, task_result):
+        return _armed_save(self, super().save, storage, task, task_result)
+
+
+class ArmedJsonCache(JsonCache):
+    def save(self, storage, task, task_result):
+        return _armed_save(self, super().save, storage, task, task_result)
+
+
+class FaultFile:
+    """File proxy: counts write/flush/close calls and fails or kills at the j-th."""
+
+    def __init__(self, real, cfg, key, filename):
+        self._real = real
+        self._cfg = cfg
+        self._key = key
+        self._filename = filename
+        self._nw = 0
+
+    def _fire(self, what):
+        emit('st-fire', what=what, file=self._filename, key=self._key, j=self._nw)
+
+    def write(self, data):
+        self._nw += 1
+        cfg = self._cfg
+        if cfg['op'] == 'write' and self._nw == cfg['j']:
+            self._fire('write')
+            from .inject import InjectedFault
+            raise InjectedFault(f'vlab: write #{self._nw} to {self._filename} failed')
+        if cfg['op'] in ('kill-write', 'kill-midwrite') and self._nw == cfg['j']:
+            import signal
+            if cfg['op'] == 'kill-midwrite' and len(data) > 1:
+                self._real.write(data[:len(data) // 2])
+            if cfg.get('sync'):
+                self._real.flush()
+                os.fsync(self._real.fileno())
+            self._fire(cfg['op'])
+            os.kill(os.getpid(), signal.SIGKILL)
+            import time
+            time.sleep(30)
+        return self._real.write(data)
+
+    def flush(self):
+        if self._cfg['op'] == 'flush':
+            self._fire('flush')
+            from .inject import InjectedFault
+            raise InjectedFault(f'vlab: flush of {self._filename} failed')
+        return self._real.flush()
+
+    def close(self):
+        if self._cfg['op'] == 'count':
+            emit('st-count', file=self._filename, key=self._key, writes=self._nw)
+        if self._cfg['op'] == 'close' and not self._real.closed:
+            self._real.close()
+            self._fire('close')
+            from .inject import InjectedFault
+            raise InjectedFault(f'vlab: close of {self._filename} failed (data may be incomplete)')
+        return self._real.close()
+
+    def __enter__(self):
+        return self
+
+    def __exit__(self, *exc):
+        self.close()
+        return False
+
+    def __getattr__(self, name):
+        return getattr(self._real, name)
+
+
+class FaultyStorage(LocalStorage):
+    """LocalStorage that injects one fault into the save path when the plan's
+    default entry carries 'storage_fault' = {op, j, file, gen, sync}."""
+
+    def file_handle(self, key, filename, *, mode='r'):
+        from .body import load_plan
+        cfg = None
+        if 'w' in mode or 'a' in mode:
+            try:
+                plan = load_plan()
+                cfg = plan.get('default', {}).get('storage_fault')
+                if cfg and cfg.get('gen', plan.get('gen')) != plan.get('gen'):
+                    cfg = None
+            except Exception:
+                cfg = None
+        if cfg and cfg.get('file') and not filename.startswith(cfg['file']):
+            cfg = None
+        if cfg and cfg.get('key') and key != cfg['key']:
+            cfg = None
+        if cfg and cfg['op'] == 'open':
+            emit('st-fire', what='open', file=filename, key=key, j=0)
+            from .inject import InjectedFault
+            raise InjectedFault(f'vlab: open of {filename} failed')
+        if cfg and cfg['op'] == 'open-after-mkdir':
+            super().file_handle(key, filename, mode=mode).close()
+            emit('st-fire', what='open-after-mkdir', file=filename, key=key, j=0)
+            from .inject import InjectedFault
+            raise InjectedFault(f'vlab: open of {filename} failed after creating it')
+        real = super().file_handle(key, filename, mode=mode)
+        if cfg:
+            return FaultFile(real, cfg, key, filename)
+        return real
